@@ -1,16 +1,14 @@
 """C15 — hypervolume: rebuilt C extension, pyhv fallback, indicator / benchmarks wrappers."""
-import importlib
-import importlib.util
 import itertools
+import json
 import math
 import os
 import shutil
 import subprocess
+import sys
 import sysconfig
-import warnings
+import time
 from fractions import Fraction
-
-import numpy
 
 import vlib
 from vlib import cq, cbool, clist, cnat, copt
@@ -21,56 +19,81 @@ F0 = Fraction(0)
 # ----------------------------------------------------------------------------
 # independent statement of the property: measure of a union of boxes [p, ref)
 # ----------------------------------------------------------------------------
+def to_ints(pts, ref):
+    """Scale rationals to integers by the common denominator L (exact)."""
+    L = 1
+    for x in list(ref) + [c for p in pts for c in p]:
+        dn = x.denominator
+        if dn != 1:
+            L = L * dn // math.gcd(L, dn)
+    if L == 1:
+        return [tuple(int(c) for c in p) for p in pts], [int(x) for x in ref], 1
+    return [tuple(int(c * L) for c in p) for p in pts], [int(x * L) for x in ref], L
+
+
 def measure_ie(pts, ref):
     """Inclusion-exclusion: |U B_p| = sum over non-empty S of (-1)^(|S|+1) |cap_{p in S} B_p|,
-    the intersection being the box of the coordinate-wise maximum.  Exact (Fractions)."""
+    the intersection being the box of the coordinate-wise maximum.  Exact: coordinates are scaled to integers."""
     d = len(ref)
-    pts = [tuple(p) for p in pts if all(p[i] < ref[i] for i in range(d))]   # empty boxes have measure 0
-    pts = sorted(set(pts))
+    ipts, iref, L = to_ints(pts, ref)
+    rng_d = range(d)
+    ipts = sorted(p for p in set(ipts) if all(p[i] < iref[i] for i in rng_d))     # empty boxes have measure 0
     # drop dominated points (their boxes are inside another box) to keep 2^n small
-    keep = [p for p in pts if not any(q != p and all(q[i] <= p[i] for i in range(d)) for q in pts)]
-    total = F0
+    keep = [p for p in ipts if not any(q != p and all(q[i] <= p[i] for i in rng_d) for q in ipts)]
+    total = 0
 
     def rec(i, corner, sign):
         nonlocal total
         for j in range(i, len(keep)):
-            c = tuple(max(a, b) for a, b in zip(corner, keep[j])) if corner is not None else keep[j]
-            vol = Fraction(1)
-            for k in range(d):
-                vol *= ref[k] - c[k]
+            kj = keep[j]
+            c = [a if a > b else b for a, b in zip(corner, kj)]
+            vol = 1
+            for k in rng_d:
+                vol *= iref[k] - c[k]
             total += sign * vol
             rec(j + 1, c, -sign)
 
-    rec(0, None, 1)
-    return total
+    for j in range(len(keep)):
+        vol = 1
+        for k in rng_d:
+            vol *= iref[k] - keep[j][k]
+        total += vol
+        rec(j + 1, list(keep[j]), -1)
+    return Fraction(total, L ** d)
 
 
 def measure_grid(pts, ref, limit=200000):
     """Sum of the volumes of the covered cells of the coordinate grid (None when the grid is too big)."""
     d = len(ref)
+    ipts, iref, L = to_ints(pts, ref)
     axes = []
     ncell = 1
     for i in range(d):
-        ax = sorted(set(p[i] for p in pts if p[i] < ref[i])) + [ref[i]]
+        ax = sorted(set(p[i] for p in ipts if p[i] < iref[i])) + [iref[i]]
         axes.append(ax)
         ncell *= max(len(ax) - 1, 0)
         if ncell > limit:
             return None
-    total = F0
+    total = 0
+    rng_d = range(d)
     for idx in itertools.product(*[range(len(ax) - 1) for ax in axes]):
-        lo = [axes[i][idx[i]] for i in range(d)]
-        if any(all(p[i] <= lo[i] for i in range(d)) for p in pts):
-            vol = Fraction(1)
-            for i in range(d):
-                vol *= axes[i][idx[i] + 1] - axes[i][idx[i]]
-            total += vol
-    return total
+        lo = [axes[i][idx[i]] for i in rng_d]
+        for p in ipts:
+            if all(p[i] <= lo[i] for i in rng_d):
+                vol = 1
+                for i in rng_d:
+                    vol *= axes[i][idx[i] + 1] - lo[i]
+                total += vol
+                break
+    return Fraction(total, L ** d)
 
 
 # ----------------------------------------------------------------------------
 # rebuild the extension from the working tree
 # ----------------------------------------------------------------------------
 def build_extension(run):
+    """Compile _hv.c + hv.cpp of $VERIF_REPO (the Extension of /repo/setup.py) into build/hvext_<pid>/hv.so.
+    The module is only ever loaded by the worker process."""
     src = os.path.join(vlib.REPO, "deap", "tools", "_hypervolume")
     out = os.path.join(vlib.BUILD, "hvext_%d" % os.getpid())
     os.makedirs(out, exist_ok=True)
@@ -85,31 +108,95 @@ def build_extension(run):
         if p.returncode != 0:
             run.broken.append({"kind": "extension_build_failed", "where": [" ".join(c[:6])], "log": p.stdout[-3000:]})
             return None, out
-    spec = importlib.util.spec_from_file_location("hv", os.path.join(out, "hv.so"))
-    mod = importlib.util.module_from_spec(spec)
-    spec.loader.exec_module(mod)
-    return mod, out
+    return os.path.join(out, "hv.so"), out
 
 
-class Recorder:
-    """Stands in for the `hv` module attribute of a wrapper module; records what the back-end returned."""
-
-    def __init__(self, real):
-        self.real = real
-        self.log = []
-
-    def hypervolume(self, pts, ref):
-        v = self.real.hypervolume(pts, ref)
-        self.log.append(v)
-        return v
+HANG_SECONDS = 60
+NAMES = {"c": "c-extension(rebuilt)", "py": "pyhv"}
 
 
-def exact(x):
-    """float -> Fraction, None if not finite."""
-    x = float(x)
-    if math.isnan(x) or math.isinf(x):
-        return None
-    return Fraction(x)
+def run_worker(run, jobs, so_path):
+    """Run the jobs in worker processes; returns (results, crashes). A worker that dies or hangs inside a back-end
+    call is restarted after that call has been marked 'skip'; the call is reported as a crash."""
+    n = len(jobs)
+    results = [None] * n
+    crashes = []
+    start, restarts = 0, 0
+    worker = os.path.join(os.path.dirname(os.path.abspath(__file__)), "c15_worker.py")
+    env = dict(os.environ)
+    env["VERIF_REPO"] = vlib.REPO
+    env["PYTHONPATH"] = vlib.REPO
+    while start < n:
+        jp = os.path.join(run.rundir, "jobs_%d.jsonl" % restarts)
+        op = os.path.join(run.rundir, "out_%d.jsonl" % restarts)
+        ep = os.path.join(run.rundir, "err_%d.txt" % restarts)
+        with open(jp, "w") as f:
+            for j in jobs[start:]:
+                f.write(json.dumps(j["job"]) + "\n")
+        if os.path.exists(op):
+            os.remove(op)
+        with open(ep, "w") as ef:
+            p = subprocess.Popen([sys.executable, worker, jp, op, so_path or "-"], env=env,
+                                 stdout=subprocess.DEVNULL, stderr=ef)
+            last_size, last_change, hung = -1, time.time(), False
+            while True:
+                rc = p.poll()
+                size = os.path.getsize(op) if os.path.exists(op) else 0
+                if size != last_size:
+                    last_size, last_change = size, time.time()
+                if rc is not None:
+                    break
+                if time.time() - last_change > HANG_SECONDS:
+                    p.kill()
+                    p.wait()
+                    hung = True
+                    rc = p.returncode
+                    break
+                time.sleep(0.05)
+        done, marker = 0, None
+        if os.path.exists(op):
+            for line in open(op):
+                if not line.endswith("\n"):
+                    break
+                if line.startswith("#"):
+                    try:
+                        a, b = line[1:].split()
+                        marker = (int(a), b)
+                    except ValueError:
+                        pass
+                    continue
+                try:
+                    idx, res = json.loads(line)
+                except ValueError:
+                    break
+                results[start + idx] = res
+                done = idx + 1
+        for f in (jp, op):
+            try:
+                os.remove(f)
+            except OSError:
+                pass
+        if done == n - start and rc == 0:
+            try:
+                os.remove(ep)
+            except OSError:
+                pass
+            break
+        errtxt = open(ep).read()[-2000:] if os.path.exists(ep) else ""
+        if marker is None or marker[0] != done:
+            run.broken.append({"kind": "worker_failed", "where": ["harness/c15_worker.py"],
+                               "log": "worker exit status %s after %d jobs, outside a back-end call\n%s" % (rc, done, errtxt)})
+            break
+        how = ("did not return within %d s" % HANG_SECONDS) if hung else "killed the interpreter (exit status %s)" % rc
+        crashes.append((start + marker[0], marker[1], how))
+        jobs[start + marker[0]]["job"].setdefault("skip", []).append(marker[1])
+        start += marker[0]
+        restarts += 1
+        if restarts > 25:
+            run.broken.append({"kind": "worker_failed", "where": ["harness/c15_worker.py"],
+                               "log": "more than 25 crashes/hangs of the implementation; remaining %d jobs not run" % (n - start)})
+            break
+    return results, crashes
 
 
 def cql(l):
@@ -124,108 +211,64 @@ def fl(p):
     return [float(x) for x in p]
 
 
+def sfr(l):
+    return [str(x) for x in l]
+
+
 # ----------------------------------------------------------------------------
 def main(run):
-    from deap import base
     run.rule = ("point sets of 1..12 points in 1..7 dimensions on integer / dyadic grids: general position, tie-heavy "
                 "grids, duplicates, dominated points, points on the reference boundary, negative coordinates, reference "
                 "at the origin; exhaustive {0,1,2}^d scopes for small d,n; every permutation of sets of <= 4 (quick) / 5 "
-                "(thorough) points, random shuffles above; each set is given to the C extension rebuilt from the working "
-                "tree, to pyhv.hypervolume and (as a population) to benchmarks.tools.hypervolume / "
-                "tools.indicator.hypervolume with both back-ends. Distinct = distinct (ordered) input; non-trivial = "
-                "at least two points with a non-empty box.")
+                "(thorough) points, random shuffles above; each ordered list is given to the C extension rebuilt from the "
+                "working tree, to pyhv.hypervolume and (as a population of 2..9 individuals, 2..4 objectives, any weight "
+                "signs) to benchmarks.tools.hypervolume / tools.indicator.hypervolume with both back-ends; all of these are "
+                "also evaluated by the Coq model. A further 'stress' set of tie-heavy lists in 4..7 dimensions is compared "
+                "with the inclusion-exclusion measure only (every 25th also by the model). Distinct = distinct ordered "
+                "input; non-trivial = at least two points with a non-empty box / at least two different losses.")
     run.trusted += ["Coq 8.16.1 kernel and vm_compute",
                     "hand-written model coq/Model/C15_HV.v (HSO recursion, grid measure, wrappers) tied by correspondence "
                     "(harness/c15.py); the dimension-sweep algorithms of _hv.c / pyhv.py are not modelled, only their "
                     "input/output behaviour is compared with the model",
                     "reading 'Lebesgue measure of a finite union of boxes' as the finite sum over grid cells "
-                    "(grid_measure); finite additivity of the measure on disjoint boxes is not formalised (no measure "
-                    "theory library installed)",
+                    "(grid_measure, justified by C15_cell_homogeneous); finite additivity of the measure on disjoint boxes "
+                    "is not formalised (no measure theory library installed)",
                     "gcc/g++ and the CPython C-API glue used to rebuild the extension on every run",
                     "numpy array arithmetic, numpy.max, numpy.argmax (first maximum), numpy.concatenate",
                     "inputs restricted to integers / short dyadics so that every double operation is exact"]
     run.assumptions += ["coordinates finite (no NaN/inf)", "every point weakly dominates the reference point (p_i <= ref_i)",
                         "all points have the dimension of the reference point", "weights non-zero"]
     run.build_props()
-    rng = run.rng
-    warnings.simplefilter("ignore")
-
-    hvc, extdir = build_extension(run)
+    so_path, extdir = build_extension(run)
     try:
-        _main(run, rng, base, hvc)
+        _main(run, run.rng, so_path)
     finally:
         shutil.rmtree(extdir, ignore_errors=True)
 
 
-def _main(run, rng, base, hvc):
-    pyhv = importlib.import_module("deap.tools._hypervolume.pyhv")
-    indmod = importlib.import_module("deap.tools.indicator")
-    benchmod = importlib.import_module("deap.benchmarks.tools")
-    backends = []
-    if hvc is not None:
-        backends.append(("c-extension(rebuilt)", hvc))
-    backends.append(("pyhv", pyhv))
+def _main(run, rng, so_path):
+    backends = (["c"] if so_path else []) + ["py"]
+    jobs = []          # {"job": what the worker gets, + bookkeeping}
 
-    terms, cases = [], []
+    # ------------------------------------------------------------------ generation
+    def hv_job(pts, ref, tag, expected, stress=False, coq=True):
+        jobs.append({"job": {"k": "hv", "pts": [fl(p) for p in pts], "ref": fl(ref), "aslist": rng.random() < 0.3,
+                             "backends": backends},
+                     "pts": pts, "ref": ref, "tag": tag, "expected": expected, "stress": stress, "coq": coq})
 
-    def add(term, case, nontrivial=True):
-        terms.append(term)
-        cases.append(case)
-        run.note_case(case, nontrivial, sample=case if len(cases) % 211 == 1 else None)
-
-    def call_hv(name, mod, pts, ref, aslist):
-        """pts/ref: Fractions. Returns Fraction or a string describing the failure."""
-        try:
-            if aslist and name != "pyhv":
-                v = mod.hypervolume([fl(p) for p in pts], fl(ref))
-            elif aslist and not any(ref):
-                # pyhv subtracts the reference in place only when it is not the origin; plain lists work then
-                v = mod.hypervolume([fl(p) for p in pts], fl(ref))
-            else:
-                v = mod.hypervolume(numpy.array([fl(p) for p in pts], dtype=float).reshape(len(pts), len(ref)),
-                                    numpy.array(fl(ref), dtype=float))
-        except Exception as e:  # noqa
-            return "raised %s: %s" % (type(e).__name__, str(e)[:200])
-        x = exact(v)
-        return x if x is not None else "returned %r" % (v,)
-
-    grid_budget = [run.scale(600, 6000)]
-
-    def hv_case(pts, ref, tag, expected=None):
-        """One ordered point list: run every back-end, oracle, Coq term."""
-        d = len(ref)
-        if expected is None:
-            expected = measure_ie(pts, ref)
-        aslist = rng.random() < 0.3
-        obs = []
-        case = {"kind": "hv", "tag": tag, "points": [[str(x) for x in p] for p in pts], "ref": [str(x) for x in ref],
-                "expected": str(expected)}
-        for name, mod in backends:
-            v = call_hv(name, mod, pts, ref, aslist)
-            case[name] = str(v)
-            if isinstance(v, str) or v != expected:
-                run.oracle_violation("%s.hypervolume(points, ref) is not the measure of the union of the boxes "
-                                     "[p, ref)" % name, dict(case), observed=str(v))
-            if not isinstance(v, str):
-                obs.append(v)
-        ncell = 1
-        for i in range(d):
-            ncell *= max(1, len(set(p[i] for p in pts)))
-        grid = ncell <= 400 and grid_budget[0] > 0
-        if grid:
-            grid_budget[0] -= 1
-        nboxes = sum(1 for p in pts if all(p[i] < ref[i] for i in range(d)))
-        add("CHv %s %s %s %s" % (cql(ref), cpts(pts), cbool(grid), cql(obs)), case, nboxes >= 2)
-        return expected
-
-    def hv_set(pts, ref, tag, maxperm):
+    def hv_set(pts, ref, tag, maxperm, stress=False):
         """A point set: the given order, then all permutations (<= maxperm points) or two shuffles."""
         expected = measure_ie(pts, ref)
-        g = measure_grid(pts, ref, limit=3000)
+        g = measure_grid(pts, ref, limit=400) if (not stress or rng.random() < 0.03) else None
         if g is not None and g != expected:
             raise RuntimeError("harness self-check: inclusion-exclusion %s != grid sum %s on %r %r" % (expected, g, pts, ref))
         n = len(pts)
-        hv_case(pts, ref, tag, expected)
+        if stress:
+            q = list(pts)
+            rng.shuffle(q)
+            hv_job(q, ref, tag, expected, stress=True, coq=(len(jobs) % 25 == 0))
+            return
+        hv_job(pts, ref, tag, expected)
         if n <= 1:
             return
         if n <= maxperm:
@@ -236,12 +279,12 @@ def _main(run, rng, base, hvc):
                 if k in seen:
                     continue
                 seen.add(k)
-                hv_case(q, ref, tag + "/perm", expected)
+                hv_job(q, ref, tag + "/perm", expected)
         else:
             for _ in range(2):
                 q = list(pts)
                 rng.shuffle(q)
-                hv_case(q, ref, tag + "/shuffle", expected)
+                hv_job(q, ref, tag + "/shuffle", expected)
 
     def transform(pts, ref):
         """Exact affine change of coordinates: dyadic scaling per axis and translation (sometimes to ref = origin)."""
@@ -259,13 +302,11 @@ def _main(run, rng, base, hvc):
         return pts, ref
 
     def gen_set(d, n, style):
-        """Integer point set and reference (every point <= ref), then decorated with duplicates / dominated /
-        boundary points."""
+        """Integer point set and reference (every point <= ref), decorated with duplicates / dominated / boundary points."""
         if style == "general":
             cols = [rng.sample(range(0, 3 * n + 2), n) for _ in range(d)]
             pts = [[Fraction(cols[i][j]) for i in range(d)] for j in range(n)]
         elif style == "front":
-            # mutually non-dominated-ish: random permutations per axis
             cols = [rng.sample(range(n), n) for _ in range(d)]
             pts = [[Fraction(cols[i][j]) for i in range(d)] for j in range(n)]
         else:
@@ -290,7 +331,8 @@ def _main(run, rng, base, hvc):
 
     maxperm = run.scale(4, 5)
 
-    # ---- corpus: the inputs on which pyhv was wrong before the repair (see known_findings/C15.json "fixed") ----
+    # corpus: the inputs on which pyhv was wrong before the repair (known_findings/C15.json "fixed"), and inputs that
+    # distinguished mutants of _hv.c during the self-test
     corpus = [
         ([[0, 1, 0, 1], [0, 0, 2, 1], [0, 1, 0, 0]], [1, 3, 3, 3]),
         ([[0, 1, 0, 1], [0, 1, 0, 0], [0, 0, 1, 1]], [1, 3, 2, 2]),
@@ -299,21 +341,21 @@ def _main(run, rng, base, hvc):
         ([[0, 1, 2, 1, 0, 1, 0], [1, 1, 0, 0, 1, 2, 0], [1, 1, 1, 2, 1, 1, 1]], [2, 2, 2, 2, 2, 2, 2]),
         ([[3, 1, 4, 3, 3, 1], [2, 0, 3, 2, 3, 1], [4, 2, 3, 1, 3, 0]], [4, 2, 4, 3, 4, 2]),
         ([[1, 0, 2, 1], [1, 0, 2, 0], [0, 3, 1, 3]], [3, 3, 3, 4]),
+        ([[0, 0, 1, 2, 2, 2, 1], [0, 1, 1, 2, 2, 2, 1], [0, 1, 1, 2, 2, 0, 1], [1, 2, 1, 0, 2, 2, 2]], [2, 3, 2, 3, 4, 3, 3]),
     ]
     for pts, ref in corpus:
         hv_set([[Fraction(x) for x in p] for p in pts], [Fraction(x) for x in ref], "corpus", 5)
 
-    # ---- exhaustive small scopes: all point lists over {0,1,2}^d, reference (2,..,2) and (3,..,3) ----
+    # exhaustive small scopes: all point lists over {0,1,2}^d, reference (2,..,2) or (3,..,3)
     for d, n in run.scale([(1, 3), (2, 2), (3, 2)], [(1, 3), (2, 3), (3, 2), (4, 2)]):
         allp = list(itertools.product([0, 1, 2], repeat=d))
         for combo in itertools.product(allp, repeat=n):
             pts = [[Fraction(x) for x in p] for p in combo]
-            r = 2 + (sum(map(sum, combo)) % 2)
-            hv_case(pts, [Fraction(r)] * d, "exhaustive")
+            ref = [Fraction(2 + (sum(map(sum, combo)) % 2))] * d
+            hv_job(pts, ref, "exhaustive", measure_ie(pts, ref))
 
-    # ---- random structured sets ----
-    nsets = run.scale(420, 5000)
-    for it in range(nsets):
+    # random structured sets
+    for it in range(run.scale(600, 6000)):
         d = rng.randint(1, 7)
         big = rng.random() < 0.25
         n = rng.randint(6, 12) if big else rng.randint(1, 6)
@@ -321,109 +363,36 @@ def _main(run, rng, base, hvc):
         pts, ref = gen_set(d, n, style)
         pts, ref = transform(pts, ref)
         hv_set(pts, ref, style, maxperm)
-    # a few sets of maximal size in every dimension
+    # sets of maximal size in every dimension
     for d in range(1, 8):
         for style in ("front", "ties"):
             pts, ref = gen_set(d, 12, style)
             hv_set(pts, ref, style + "/max", maxperm)
 
-    run.correspond("hv", "C15", terms, cases)
+    # stress: tie-heavy lists in 4..7 dimensions, small coordinate range, with and without slack to the reference
+    for it in range(run.scale(12000, 150000)):
+        d = rng.choice([4, 5, 6, 6, 7, 7, 7])
+        n = rng.randint(3, 7)
+        k = rng.choice([1, 2, 2, 3, 3])
+        slack = rng.choice([0, 1, 1, 2])
+        pts = [[Fraction(rng.randint(0, k)) for _ in range(d)] for _ in range(n)]
+        ref = [max(p[i] for p in pts) + slack for i in range(d)]
+        hv_set(pts, ref, "stress", 0, stress=True)
 
-    # ---- populations: benchmarks.tools.hypervolume and tools.indicator.hypervolume ----
-    terms2, cases2 = [], []
-    fitcls = {}
+    # populations
+    def pop_job(w, vals, refo):
+        jobs.append({"job": {"k": "pop", "w": fl(w), "vals": [fl(v) for v in vals], "refo": None if refo is None else fl(refo),
+                             "refarr": rng.random() < 0.7, "backends": backends},
+                     "w": w, "vals": vals, "refo": refo})
 
-    class Ind(list):
-        pass
-
-    def population(w, vals):
-        key = tuple(w)
-        if key not in fitcls:
-            fitcls[key] = type("FitC15_%d" % len(fitcls), (base.Fitness,), {"weights": tuple(float(x) for x in w)})
-        pop = []
-        for v in vals:
-            ind = Ind(fl(v))
-            ind.fitness = fitcls[key]()
-            ind.fitness.values = tuple(fl(v))
-            pop.append(ind)
-        return pop
-
-    def pop_case(w, vals, refo):
-        nobj = len(w)
-        P = [[-(x * wi) for x, wi in zip(v, w)] for v in vals]
-        ref = refo if refo is not None else [max(p[i] for p in P) + 1 for i in range(nobj)]
-        total = measure_ie(P, ref)
-        loo = [measure_ie(P[:i] + P[i + 1:], ref) for i in range(len(P))]
-        losses = [total - x for x in loo]
-        case = {"kind": "population", "weights": [str(x) for x in w], "values": [[str(x) for x in v] for v in vals],
-                "ref": None if refo is None else [str(x) for x in refo], "expected_hv": str(total),
-                "expected_losses": [str(x) for x in losses]}
-        obs_hv, obs_idx, obs_contrib = [], [], []
-        for name, mod in backends:
-            pop = population(w, vals)
-            kw = {}
-            if refo is not None:
-                kw["ref"] = numpy.array(fl(refo)) if rng.random() < 0.7 else fl(refo)
-            # benchmarks.tools.hypervolume
-            old = benchmod.hv
-            benchmod.hv = Recorder(mod)
-            try:
-                try:
-                    v = benchmod.hypervolume(pop, kw.get("ref")) if refo is not None else benchmod.hypervolume(pop)
-                    x = exact(v)
-                    v = x if x is not None else "returned %r" % (v,)
-                except Exception as e:  # noqa
-                    v = "raised %s: %s" % (type(e).__name__, str(e)[:200])
-            finally:
-                benchmod.hv = old
-            case["benchmarks.tools.hypervolume[%s]" % name] = str(v)
-            if isinstance(v, str) or v != total:
-                run.oracle_violation("benchmarks.tools.hypervolume (back-end %s) is not the measure of the union of the boxes "
-                                     "of the negated weighted objectives" % name, dict(case), observed=str(v))
-            if not isinstance(v, str):
-                obs_hv.append(v)
-            # tools.indicator.hypervolume
-            old = indmod.hv
-            rec = Recorder(mod)
-            indmod.hv = rec
-            try:
-                try:
-                    i = indmod.hypervolume(pop, **kw)
-                    i = int(i)
-                except Exception as e:  # noqa
-                    i = "raised %s: %s" % (type(e).__name__, str(e)[:200])
-            finally:
-                indmod.hv = old
-            case["tools.indicator.hypervolume[%s]" % name] = str(i)
-            if isinstance(i, str) or not (0 <= i < len(vals)) or losses[i] != min(losses):
-                run.oracle_violation("tools.indicator.hypervolume (back-end %s) does not return the index of an individual "
-                                     "whose removal reduces the hypervolume the least" % name, dict(case), observed=str(i))
-            if not isinstance(i, str) and i >= 0:
-                obs_idx.append(i)
-                contrib = [exact(x) for x in rec.log]
-                if len(contrib) == len(vals) and all(c is not None for c in contrib):
-                    obs_contrib.append(contrib)
-        distinct_losses = len(set(losses)) > 1
-        t1 = "CPop %s %s %s %s" % (cql(w), cpts(vals), copt(refo, cql), cql(obs_hv))
-        t2 = "CInd %s %s %s %s %s" % (cql(w), cpts(vals), copt(refo, cql), clist([cnat(i) for i in obs_idx]),
-                                      clist([cql(c) for c in obs_contrib]))
-        terms2.append(t1)
-        cases2.append(case)
-        terms2.append(t2)
-        cases2.append(case)
-        run.note_case(case, distinct_losses, sample=case if len(cases2) % 150 == 2 else None)
-
-    npop = run.scale(350, 4000)
-    for it in range(npop):
+    for it in range(run.scale(500, 5000)):
         nobj = rng.randint(2, 4)
         n = rng.randint(2, 4) if rng.random() < 0.5 else rng.randint(5, 9)
-        wkind = rng.random()
-        if wkind < 0.6:
+        if rng.random() < 0.6:
             w = [Fraction(rng.choice([1, -1])) for _ in range(nobj)]
         else:
             w = [Fraction(rng.choice([1, -1])) * rng.choice([Fraction(1), Fraction(2), Fraction(1, 2), Fraction(3)]) for _ in range(nobj)]
-        style = rng.random()
-        if style < 0.4:
+        if rng.random() < 0.4:
             cols = [rng.sample(range(n + 2), n) for _ in range(nobj)]
             vals = [[Fraction(cols[i][j]) for i in range(nobj)] for j in range(n)]
         else:
@@ -431,12 +400,116 @@ def _main(run, rng, base, hvc):
             vals = [[Fraction(rng.randint(-k, k)) / rng.choice([1, 1, 2]) for _ in range(nobj)] for _ in range(n)]
         if rng.random() < 0.15:
             vals[rng.randrange(n)] = list(vals[rng.randrange(n)])
-        u = rng.random()
-        if u < 0.6:
+        if rng.random() < 0.6:
             refo = None
         else:
             P = [[-(x * wi) for x, wi in zip(v, w)] for v in vals]
             refo = [max(p[i] for p in P) + rng.choice([0, 1, 1, 2, Fraction(1, 2)]) for i in range(nobj)]
-        pop_case(w, vals, refo)
+        pop_job(w, vals, refo)
 
-    run.correspond("pop", "C15", terms2, cases2)
+    # ------------------------------------------------------------------ run the implementations
+    results, crashes = run_worker(run, jobs, so_path)
+    crashed = {}
+    for idx, be, how in crashes:
+        crashed[(idx, be)] = how
+
+    # ------------------------------------------------------------------ oracle + Coq terms
+    terms, cases = [], []
+    terms2, cases2 = [], []
+    grid_budget = run.scale(800, 8000)
+    nstress = 0
+    for idx, j in enumerate(jobs):
+        res = results[idx]
+        if j["job"]["k"] == "hv":
+            pts, ref, expected = j["pts"], j["ref"], j["expected"]
+            d = len(ref)
+            case = {"kind": "hv", "tag": j["tag"], "points": [sfr(p) for p in pts], "ref": sfr(ref), "expected": str(expected),
+                    "as_lists": j["job"]["aslist"]}
+            obs = []
+            for be in backends:
+                name = NAMES[be]
+                if (idx, be) in crashed:
+                    case[name] = crashed[(idx, be)]
+                    run.oracle_violation("%s.hypervolume(points, ref) %s" % (name, crashed[(idx, be)]), dict(case),
+                                         observed=crashed[(idx, be)])
+                    continue
+                if res is None or be not in res:
+                    continue            # not run (worker failure recorded in run.broken)
+                r = res[be]
+                v = Fraction(r[1]) if r[0] == "ok" else r[1]
+                case[name] = str(v)
+                if r[0] != "ok" or v != expected:
+                    run.oracle_violation("%s.hypervolume(points, ref) is not the measure of the union of the boxes "
+                                         "[p, ref)" % name, dict(case), observed=str(v))
+                if r[0] == "ok":
+                    obs.append(v)
+            nboxes = sum(1 for p in pts if all(p[i] < ref[i] for i in range(d)))
+            if j["stress"]:
+                nstress += 1
+                run.note_case(case, nboxes >= 2, sample=case if nstress == 7 else None)
+                if not j["coq"]:
+                    continue
+            ncell = 1
+            for i in range(d):
+                ncell *= max(1, len(set(p[i] for p in pts)))
+            grid = ncell <= 400 and grid_budget > 0
+            if grid:
+                grid_budget -= 1
+            terms.append("CHv %s %s %s %s" % (cql(ref), cpts(pts), cbool(grid), cql(obs)))
+            cases.append(case)
+            if not j["stress"]:
+                run.note_case(case, nboxes >= 2, sample=case if len(cases) % 211 == 1 else None)
+        else:
+            w, vals, refo = j["w"], j["vals"], j["refo"]
+            nobj = len(w)
+            P = [[-(x * wi) for x, wi in zip(v, w)] for v in vals]
+            ref = refo if refo is not None else [max(p[i] for p in P) + 1 for i in range(nobj)]
+            total = measure_ie(P, ref)
+            loo = [measure_ie(P[:i] + P[i + 1:], ref) for i in range(len(P))]
+            losses = [total - x for x in loo]
+            case = {"kind": "population", "weights": sfr(w), "values": [sfr(v) for v in vals],
+                    "ref": None if refo is None else sfr(refo), "ref_as_array": j["job"]["refarr"],
+                    "expected_hv": str(total), "expected_losses": sfr(losses)}
+            obs_hv, obs_idx, obs_contrib = [], [], []
+            for be in backends:
+                name = NAMES[be]
+                if (idx, be) in crashed:
+                    case[name] = crashed[(idx, be)]
+                    run.oracle_violation("hypervolume wrappers with back-end %s: %s" % (name, crashed[(idx, be)]), dict(case),
+                                         observed=crashed[(idx, be)])
+                    continue
+                if res is None or be not in res:
+                    continue
+                r = res[be]
+                bt = r["bt"]
+                v = Fraction(bt[1]) if bt[0] == "ok" else bt[1]
+                case["benchmarks.tools.hypervolume[%s]" % name] = str(v)
+                if bt[0] != "ok" or v != total:
+                    run.oracle_violation("benchmarks.tools.hypervolume (back-end %s) is not the measure of the union of the "
+                                         "boxes of the negated weighted objectives (default reference: worst + 1)" % name,
+                                         dict(case), observed=str(v))
+                if bt[0] == "ok":
+                    obs_hv.append(v)
+                ind = r["ind"]
+                i = ind[1]
+                case["tools.indicator.hypervolume[%s]" % name] = str(i)
+                if ind[0] != "ok" or not (0 <= i < len(vals)) or losses[i] != min(losses):
+                    run.oracle_violation("tools.indicator.hypervolume (back-end %s) does not return the index of an "
+                                         "individual whose removal reduces the hypervolume the least" % name, dict(case),
+                                         observed=str(i))
+                if ind[0] == "ok" and i >= 0:
+                    obs_idx.append(i)
+                    contrib = r["contrib"]
+                    if len(contrib) == len(vals) and all(c[0] == "ok" for c in contrib):
+                        obs_contrib.append([Fraction(c[1]) for c in contrib])
+            terms2.append("CPop %s %s %s %s" % (cql(w), cpts(vals), copt(refo, cql), cql(obs_hv)))
+            cases2.append(case)
+            terms2.append("CInd %s %s %s %s %s" % (cql(w), cpts(vals), copt(refo, cql), clist([cnat(i) for i in obs_idx]),
+                                                   clist([cql(c) for c in obs_contrib])))
+            cases2.append(case)
+            run.note_case(case, len(set(losses)) > 1, sample=case if len(cases2) % 150 == 2 else None)
+
+    run.extra_cov["implementation_crashes_or_hangs"] = len(crashes)
+    run.extra_cov["stress_cases_oracle_only"] = nstress
+    run.correspond("hv", "C15", terms, cases, shard=300)
+    run.correspond("pop", "C15", terms2, cases2, shard=150)
